@@ -293,16 +293,9 @@ Fixpoint no_adjacent_lists (l : list gblock) : bool :=
   | _ => true
   end.
 
-Definition is_rule_or_table (b : gblock) : bool := match b with GRule | GTable _ _ _ => true | _ => false end.
-
-(* the blocks of a tight item are written without blank lines between them: two quotes in a row are
-   read as one *)
-Definition is_quote (b : gblock) : bool := match b with GQuote _ => true | _ => false end.
-Fixpoint no_adjacent_quotes (l : list gblock) : bool :=
-  match l with
-  | a :: ((b :: _) as r) => negb (is_quote a && is_quote b) && no_adjacent_quotes r
-  | _ => true
-  end.
+(* (the blocks of an item of a list written tight stand on consecutive lines; since the repair of F-TIGHTTAIL the
+   writer - Project.is_sparse, GraphBlock::is_sparce_list - writes a list tight only when no item holds a rule
+   under its text or two quotes in a row, so tight items need no clause of their own here any more) *)
 
 (* an item without text: what may stand right after the marker (a paragraph or heading there would be
    read as the item's text, a list alone as items of the enclosing list) *)
@@ -316,7 +309,7 @@ Definition headless_start (x : gblock) (rest : list gblock) : bool :=
 Fixpoint safe_block (o : opts) (b : gblock) {struct b} : bool :=
   let fix go (l : list gblock) {struct l} : bool :=
     match l with [] => true | x :: r => safe_block o x && go r end in
-  let fix goi (tight : bool) (its : list (list gblock)) {struct its} : bool :=
+  let fix goi (its : list (list gblock)) {struct its} : bool :=
     match its with
     | [] => true
     | it :: r =>
@@ -324,22 +317,17 @@ Fixpoint safe_block (o : opts) (b : gblock) {struct b} : bool :=
         | (GPlain [] | GPara []) :: x :: rest =>
             (* the item starts with its second block (written right after the marker): a code block, a
                quote, a rule, or a list that more blocks follow *)
-            headless_start x rest &&
-            negb (tight && existsb is_rule_or_table rest) && (negb tight || no_adjacent_quotes (x :: rest)) &&
-            no_adjacent_lists (x :: rest) && go (x :: rest)
-        | (GPlain (_ :: _) | GPara (_ :: _)) :: rest =>
-            (* a rule right under the text of a tight item is a setext underline *)
-            negb (tight && existsb is_rule_or_table rest) && (negb tight || no_adjacent_quotes rest) &&
-            no_adjacent_lists it && go it
+            headless_start x rest && no_adjacent_lists (x :: rest) && go (x :: rest)
+        | (GPlain (_ :: _) | GPara (_ :: _)) :: _ => no_adjacent_lists it && go it
         | _ => false
-        end && goi tight r
+        end && goi r
     end in
   match b with
   | GPlain l | GPara l => safe_line o l
   | GHeader n l => Nat.leb 1 n && Nat.leb n 6 && safe_line o l
   | GCode lang text => safe_lang lang && safe_code text
   | GQuote bs => match bs with [] => false | _ => go bs && no_adjacent_lists bs end
-  | GOList its | GBList its => match its with [] => false | _ => goi (negb (is_sparse its)) its end
+  | GOList its | GBList its => match its with [] => false | _ => goi its end
   | GRule => true
   | GTable _ _ _ => false
   end.
